@@ -197,20 +197,45 @@ def run(run):
         sy = S.Sym(F)
         env = {}
         sy.term(f["body"], env)
-        pushes = [(n, c) for n, c in T.paths_to(f["body"], lambda x: T.is_call(x, "push")) if any(T.is_call(y, "generate_cwe_warning") for y in T.walk(n))]
-        ok = False
-        why = ""
-        if len(pushes) == 1:
-            n, conds = pushes[0]
-            ifs = [(sy.ev(cd[1], env), cd[2]) for cd in conds if cd[0] == "if"]
-            arms = [cd for cd in conds if cd[0] == "arm" and not cd[1].get("ms", "").startswith("ForLoop")]
-            pred = [c for c, p in ifs if is_call(c, "is_chmod_style_arg") and p]
-            not_empty = [c for c, p in ifs if not is_call(c, "is_chmod_style_arg")]
-            in_ok_arm = any(T.pat_variant_names(a[2]["p"]) == {"Ok"} and any(T.is_call(y, "get_umask_permission_arg") for y in T.walk(a[1]["e"])) for a in arms)
-            arg_is_value = bool(pred) and pred[0][2][0][0] == "field" and pred[0][2][0][2] == "Ok.0"
-            ok = bool(pred) and in_ok_arm and arg_is_value
-            why = "conditions %s" % [fmt(c)[:60] for c, p in ifs]
-        run.check("R1", "umask|warn-iff-predicate-on-computed-value", ok, "a umask warning must be emitted exactly when the argument value computed for the call block satisfies the predicate (%s)" % why, F.loc(f["body"]))
+        from .lib import bindsrc as B
+        pushes = [(n, c) for n, c in T.paths_to(f["body"], lambda x: T.is_call(x, ("push", "extend", "insert"))) if any(T.is_call(y, "generate_cwe_warning") for y in T.walk(n))]
+        key = "umask|warn-iff-predicate-on-computed-value"
+        msg = "a umask warning must be emitted exactly when the argument value computed for the call block satisfies the predicate"
+        key0 = key
+        if not pushes:
+            run.undecided("R1", key, "no site that stores a generated warning found", F.loc(f["body"]))
+        for i_, (n, conds) in enumerate(pushes):
+            key = key0 if i_ == 0 else "%s|site%d" % (key0, i_)
+            roots = B.bodies(F, f)
+            pred_ok, extra = False, []
+            for cd in conds:
+                if cd[0] == "arm" and (cd[1].get("ms", "").startswith("ForLoop") or T.is_call(T.peel(cd[1]["e"]), "next")):
+                    continue
+                e = cd[1] if cd[0] in ("if",) else (cd[1]["e"] if cd[0] == "arm" else cd[1].get("i"))
+                if e is None:
+                    continue
+                pe = T.peel(e)
+                if cd[0] == "if" and T.is_call(pe, "is_chmod_style_arg"):
+                    from_arg = any(T.is_call(y, "get_umask_permission_arg") for src, how in B.sources(F, roots, pe["a"][0]) for y in T.walk(src))
+                    if cd[2] is True and from_arg:
+                        pred_ok = True
+                    else:
+                        extra.append("predicate negated or not applied to the computed argument")
+                    continue
+                if any(T.is_call(y, "get_umask_permission_arg") for src, how in B.sources(F, roots, e) for y in T.walk(src)):
+                    continue        # taking the Result apart (Ok arm / let-else / if-let)
+                pol = cd[2] if cd[0] == "if" else None
+                while pe.get("k") == "Unary" and pe.get("o") == "Not" and pol is not None:
+                    pe, pol = T.peel(pe["e"]), not pol
+                if T.is_call(pe, "is_empty") and pol is False:
+                    continue        # nothing to check without a umask symbol
+                extra.append(T.show(e, F)[:60])
+            if not pred_ok:
+                run.violated("R1", key, msg + " (the warning is not guarded by is_chmod_style_arg(<value from get_umask_permission_arg>); %s)" % extra, F.loc(n))
+            elif extra:
+                run.undecided("R1", key, "further conditions on the warning: %s" % extra, F.loc(n))
+            else:
+                run.holds("R1", key, "", F.loc(n))
         # CWE467
         f = F.fn("check_for_pointer_sized_arg", mod="checkers::cwe_467")
         sy = S.Sym(F)
@@ -252,23 +277,31 @@ def run(run):
         news = [x for x in S.subterms(t) if is_call(x, "new") and "pointer_inference::state::State" in x[3]]
         run.check("R2", "%s|fresh-state" % label, len(news) == 1 and not any(isinstance(y, tuple) and y and y[0] == "var" and y[1] not in ("project", "block") for y in S.subterms(news[0])) if news else False,
                   "the argument must be computed from a FRESH state for the call block (no state carried over from elsewhere)", site)
-        fors = T.for_loops(fn["body"])
-        dl = [fl for fl in fors if any(isinstance(y, tuple) and y and y[0] == "field" and y[2] == "defs" for y in S.subterms(sy.ev(fl[2], env)))]
-        if not dl:
-            run.violated("R2", "%s|replays-all-defs" % label, "the definitions of the call block are no longer replayed", site)
-            return
-        node, pat, it, body = dl[0]
-        itt = sy.ev(it, env)
-        bad = [y[1] for y in S.subterms(itt) if is_call(y, ("rev", "take", "skip", "filter", "step_by", "take_while", "skip_while", "filter_map"))]
-        exits = [x for x in T.walk(body) if x.get("k") in ("Break", "Continue", "Return")]
-        run.check("R2", "%s|replays-all-defs-in-order" % label, not bad and not exits, "every definition of the block must be replayed in program order (adaptors %s, early exits %d)" % (bad, len(exits)), F.loc(node))
-        ms = T.find_matches(body, adt_suffix="def::Def")
+        from .lib import iterctx as IC
+        ms = [x for x in T.walk_deep(F, fn["body"], 2) if x.get("k") == "Match" and T.find_matches(x, adt_suffix="def::Def") and T.find_matches(x, adt_suffix="def::Def")[0] is x]
         if not ms:
-            run.violated("R2", "%s|def-table" % label, "no match over Def in the replay loop", F.loc(node))
+            run.violated("R2", "%s|replays-all-defs" % label, "the definitions of the call block are no longer replayed (no dispatch over Def in %s or its helpers)" % fn["name"], site)
             return
         m = ms[0]
+        ctx = IC.contexts(F, fn, m)
+        own, chain = IC.owner(F, fn, m)
+        fields, bad = IC.summary(F, fn, ctx)
+        if "defs" not in fields:
+            run.violated("R2", "%s|replays-all-defs" % label, "the definitions of the call block are no longer replayed (the Def dispatch does not run in an iteration over `defs`)", site)
+            return
+        # early exits: in the loop body / closure body that holds the dispatch (or the call of the helper that holds it)
+        holder = chain[0] if chain else m
+        hb, _ = IC.owner(F, fn, holder)
+        exits = []
+        loops_ = [fl for fl in T.for_loops(hb["body"]) if any(x is holder for x in T.walk(fl[3]))]
+        scope = loops_[-1][3] if loops_ else hb["body"]
+        exits = [x for x in T.walk(scope) if x.get("k") in ("Break", "Continue", "Return") and not x.get("x")]
+        if chain:
+            exits += [x for x in T.walk(own["body"]) if x.get("k") == "Return" and any(y is m for y in T.walk(own["body"])) and not any(y is x for y in T.walk(m))]
+        run.check("R2", "%s|replays-all-defs-in-order" % label, not bad and not exits, "every definition of the block must be replayed in program order (adaptors %s, early exits %d)" % (bad, len(exits)), F.loc(m))
         wild = any(T.WILD in T.pat_variant_names(a["p"]) for a in m["arms"])
         run.check("R2", "%s|def-table|exhaustive" % label, not wild, "the replay must handle every kind of definition explicitly (no wildcard arm)", F.loc(m))
+        node = m
         want = {"Assign": ("handle_register_assign", ["var", "value"]), "Load": ("handle_load", ["var", "address"]), "Store": ("handle_store", ["address", "value"])}
         for v, (callee, slots) in want.items():
             arms = T.arms_for_variant(m, v)
@@ -297,9 +330,29 @@ def run(run):
         evs = [x for x in S.subterms(t) if is_call(x, "eval_parameter_arg")]
         ok = bool(evs) and evs[0][2][0][0] == "var" and evs[0][2][0][1] == "state" and any(is_call(y, "get_unique_parameter") for y in S.subterms(evs[0][2][1]))
         run.check("R2", "umask|parameter-on-replayed-state", ok, "the umask parameter (the symbol's unique parameter) must be evaluated on the replayed block state", F.loc(f560["body"]))
-        res = S.value(t)
-        good = res[0] == "ite" and res[1][0] == "let" and res[1][1].startswith("Ok") and is_call(res[1][2], "try_to_bitvec") and S.value(res[3])[0] == "adt" and S.value(res[3])[2] == "Err"
-        run.check("R2", "umask|single-concrete-value-else-error", good, "a value is returned only if the parameter evaluates to ONE concrete bitvector; otherwise an error (which becomes a log message, never a warning)", F.loc(f560["body"]))
+        from .lib import peval as PE
+
+        def concrete_case(ok_):
+            hits = {"n": 0}
+
+            def assume(n):
+                if n.get("k") == "Call" and n.get("n") == "try_to_bitvec":
+                    hits["n"] += 1
+                    return ("enum", "Ok" if ok_ else "Err")
+                return None
+            res, nodes = PE.Spec(F, assume=assume).results(f560["body"], {})
+            return [PE.result_kind(r) for r in res], hits["n"]
+        kinds_err, h = concrete_case(False)
+        key = "umask|single-concrete-value-else-error"
+        msg = "a value is returned only if the parameter evaluates to ONE concrete bitvector; otherwise an error (which becomes a log message, never a warning)"
+        if not h:
+            run.violated("R2", key, msg + " -- the value is never required to be a single bitvector (no try_to_bitvec)", F.loc(f560["body"]))
+        elif "Ok" in kinds_err:
+            run.violated("R2", key, msg + " -- a value is returned although try_to_bitvec failed", F.loc(f560["body"]))
+        elif None in kinds_err or not kinds_err:
+            run.undecided("R2", key, "results %s" % kinds_err, F.loc(f560["body"]))
+        else:
+            run.holds("R2", key, "", F.loc(f560["body"]))
         f = F.fn("check_cwe", mod="checkers::cwe_560")
         sy = S.Sym(F)
         env = {}
